@@ -24,7 +24,7 @@ open EG EG.Rect EG.Generated EG.RectSrcPrelude EG.AdaptSrcPrelude
 def toCropIt (s : AdaptSrc.contiguous_Cropped) : CropIt :=
   { rest := s.iter, x := s.x, y := s.y, w := s.size.w, h := s.size.h, rowSkip := s.row_skip }
 
-theorem iter_next_snd {α : Type} (l : List α) : (iter_next l).2 = l.tail := by cases l <;> rfl
+theorem listiter_next_snd {α : Type} (l : List α) : (listiter_next l).2 = l.tail := by cases l <;> rfl
 
 /-- **`Cropped::new`, regenerated = hand model.** -/
 theorem contiguous_Cropped_new_src_eq_model (cs : List Color) (size : Sz) (cropArea : Rect) :
@@ -32,13 +32,13 @@ theorem contiguous_Cropped_new_src_eq_model (cs : List Color) (size : Sz) (cropA
   have h := CropIt.cropOf_tl_nonneg size cropArea
   have hc : Rect.intersection ⟨Pt.zero, size⟩ cropArea = CropIt.cropOf size cropArea := rfl
   unfold AdaptSrc.contiguous_Cropped_new CropIt.new
-  simp only [Rectangle_intersection, Rectangle_new, Point_zero, hc]
+  simp only [Rectangle_intersection, Rectangle_new, point_zero, hc]
   generalize CropIt.cropOf size cropArea = c at h ⊢
   obtain ⟨hx, hy⟩ := h
   simp only [usize_add, usize_mul, usize_sub, usize_gt, i32_as_usize, u32_as_usize, Point_x, Point_y,
-    Rectangle_top_left, Rectangle_size, Size_width, u32_saturating_sub, iter_nth, hx, hy, if_true, gt_iff_lt,
+    Rectangle_top_left, Rectangle_size, Size_width, u32_saturating_sub, listiter_nth, hx, hy, if_true, gt_iff_lt,
     decide_eq_true_eq]
-  split <;> simp [toCropIt, iter_next_snd, *]
+  split <;> simp [toCropIt, listiter_next_snd, *]
 
 /-- **One `Iterator::next`, regenerated = hand model.** -/
 theorem contiguous_Cropped_next_src_eq_model (s : AdaptSrc.contiguous_Cropped) :
@@ -48,7 +48,7 @@ theorem contiguous_Cropped_next_src_eq_model (s : AdaptSrc.contiguous_Cropped) :
     | none => (AdaptSrc.contiguous_Cropped_next s).1 = none := by
   obtain ⟨iter, x, y, ⟨w, h⟩, rs⟩ := s
   unfold AdaptSrc.contiguous_Cropped_next CropIt.next
-  simp only [toCropIt, bool_or, u32_ge, u32_eq, u32_lt, u32_add, Size_width, Size_height, iter_nth]
+  simp only [toCropIt, bool_or, u32_ge, u32_eq, u32_lt, u32_add, Size_width, Size_height, listiter_nth]
   by_cases h1 : y ≥ h ∨ w = 0
   · simp [h1]
   · by_cases h2 : x < w
